@@ -49,6 +49,21 @@ pub struct Shared {
 	pub acq_orders: Vec<(TargetRef, bool, Vec<Lid>)>,
 	pub skipped_steps: u64,
 	pub executed_steps: u64,
+	/// per executed step: (step index, tid, trace start, trace end, held before, held after)
+	pub step_ranges: Vec<StepRange>,
+	/// how the last API call ended: "ok", "err", "panic:fault", "panic:killed", "panic:user", ...
+	pub last_outcome: String,
+}
+
+#[derive(Clone, Debug, Default, serde::Serialize)]
+pub struct StepRange {
+	pub step: usize,
+	pub tid: Tid,
+	pub start: usize,
+	pub end: usize,
+	pub held_before: Vec<(Lid, bool)>,
+	pub held_after: Vec<(Lid, bool)>,
+	pub outcome: String,
 }
 
 #[derive(Clone, Copy, Default)]
@@ -603,7 +618,11 @@ fn illegal_release_findings(env: &Env, n0: usize) {
 	let notices = env.exec.notices();
 	for n in &notices[n0.min(notices.len())..] {
 		if let Notice::IllegalRelease { tid, lid, op, kind, during_fault, .. } = n {
-			let prop = if *during_fault { "C12" } else { "C05" };
+			if *during_fault {
+				// evaluated by the C12 fault oracle with the call site in the signature
+				continue;
+			}
+			let prop = "C05";
 			env.finding(
 				prop,
 				*tid,
@@ -637,6 +656,8 @@ pub fn run_step(env: &Env, ctx: &mut ThreadCtx, idx: usize, step: &Step) -> Step
 	let tid = ctx.tid;
 	let n0 = env.exec.notices().len();
 	let mut executed = true;
+	let range_start = env.exec.trace_len();
+	let held_before = if env.opts.faults { env.exec.held_by(tid) } else { Vec::new() };
 	match step {
 		Step::GetKey => {
 			let expect_alive = ctx.key_alive();
@@ -764,8 +785,17 @@ pub fn run_step(env: &Env, ctx: &mut ThreadCtx, idx: usize, step: &Step) -> Step
 		Step::TempColl { kind, members, then } => {
 			executed = step_temp_coll(env, ctx, *kind, members, *then);
 		}
+		Step::ProbeFaulted { fallback } => {
+			executed = step_probe_faulted(env, ctx, *fallback);
+		}
 	}
 	illegal_release_findings(env, n0);
+	if env.opts.faults {
+		let end = env.exec.trace_len();
+		let held_after = env.exec.held_by(tid);
+		let outcome = std::mem::take(&mut env.sh().last_outcome);
+		env.sh().step_ranges.push(StepRange { step: idx, tid, start: range_start, end, held_before, held_after, outcome });
+	}
 	{
 		let mut sh = env.sh();
 		if executed {
@@ -1432,13 +1462,89 @@ fn step_temp_coll(env: &Env, ctx: &mut ThreadCtx, kind: KindTag, members: &[Memb
 // ---------------------------------------------------------------------------
 // fault handling (C12) -- filled in by the fault engine
 
-fn fault_swallowed(env: &Env, tid: Tid, what: &str) {
-	env.finding(
-		"C12",
-		tid,
-		format!("fault-swallowed|{what}"),
-		format!("{what}: a raw lock operation panicked but the panic did not reach the caller"),
-	);
+fn fault_swallowed(env: &Env, _tid: Tid, _what: &str) {
+	// the C12 oracle reports it with the call site: outcome "ok" although a fault fired
+	env.sh().last_outcome = "returned-normally".into();
+}
+
+fn step_probe_faulted(env: &Env, ctx: &mut ThreadCtx, fallback: TargetRef) -> bool {
+	let tid = ctx.tid;
+	if ctx.guard.is_some() {
+		return false;
+	}
+	let mut lids: Vec<Lid> = env.exec.lock().fault_fired.iter().map(|(_, l, _, _)| *l).collect();
+	lids.sort();
+	lids.dedup();
+	if lids.is_empty() {
+		return false;
+	}
+	let nstandalone = env.world.leaves.len();
+	let mut targets: Vec<(TargetRef, Lid)> = Vec::new();
+	for l in lids {
+		let t = if (l as usize) < nstandalone { TargetRef::Leaf(l as usize) } else { fallback };
+		if !targets.iter().any(|(x, _)| *x == t) {
+			targets.push((t, l));
+		}
+	}
+	for (t, lid) in targets {
+		let Some(tg) = target_of(env, t) else { continue };
+		for blocking in [false, true] {
+			if env.exec.is_abort() {
+				return true;
+			}
+			if ctx.key.is_none() {
+				ctx.key = ThreadKey::get();
+			}
+			let Some(key) = ctx.key.take() else { return true };
+			let what = format!("probe:{}:{}", if blocking { "lock" } else { "try_lock" }, kind_name(env, t));
+			env.exec.begin_call(tid, if blocking { CallKind::AcquireBlocking } else { CallKind::AcquireTry }, &what);
+			let r = catch_unwind(AssertUnwindSafe(|| if blocking { Ok(tg.lock(key)) } else { tg.try_lock(key) }));
+			env.exec.end_call(tid);
+			match r {
+				Ok(Ok(g)) => {
+					env.finding(
+						"C12",
+						tid,
+						format!("not-killed|{}|{}", if blocking { "blocking-acquired" } else { "try-succeeded" }, kind_name(env, t)),
+						format!("L{lid} had a raw operation panic, yet a later {what} acquired it"),
+					);
+					drop(g);
+				}
+				Ok(Err(k)) => ctx.key = Some(k),
+				Err(p) => match classify_panic(p) {
+					PanicKind::Killed(_) | PanicKind::Fault => {}
+					PanicKind::Abort => {
+						// which lock did the call wait for?  Only a wait for the
+						// faulted lock itself shows that it was not killed; a wait
+						// for another (leaked) member says nothing about it.
+						let waited_on: Option<Lid> = env.exec.notices().iter().rev().find_map(|n| match n {
+							Notice::WouldWait { lid, .. } | Notice::SelfWait { lid, .. } => Some(*lid),
+							_ => None,
+						});
+						if waited_on == Some(lid) {
+							env.finding(
+								"C12",
+								tid,
+								format!("not-killed|blocking-waited|{}", kind_name(env, t)),
+								format!("L{lid} had a raw operation panic, yet a later {what} went on to wait for that raw lock instead of refusing"),
+							);
+						} else {
+							env.label("probe_blocked_on_other_lock");
+						}
+						ctx.aborted = true;
+						return true;
+					}
+					PanicKind::User => {}
+					PanicKind::Other(m) => env.finding("PANIC", tid, format!("unexpected-panic|{what}|{}", first_words(&m)), m),
+				},
+			}
+		}
+	}
+	if ctx.key.is_none() {
+		ctx.key = ThreadKey::get();
+	}
+	env.label("probed_faulted_lock");
+	true
 }
 
 fn after_fault_panic(env: &Env, ctx: &mut ThreadCtx, what: &str) {
@@ -1446,6 +1552,7 @@ fn after_fault_panic(env: &Env, ctx: &mut ThreadCtx, what: &str) {
 	// evaluates the C12 clauses from the trace; here we only restore the
 	// thread's key so the history can continue
 	let _ = what;
+	env.sh().last_outcome = "panicked".into();
 	if !env.opts.faults {
 		env.finding("PANIC", ctx.tid, format!("raw-panic-without-fault-plan|{what}"), "a raw-operation panic surfaced although no fault was planned");
 	}
